@@ -125,17 +125,19 @@ OnLadder(ev) ==
   /\ UNCHANGED <<hdr, nextBid, sidType, sidSchema, live, retired, opened, lastIn, lastEnc>>
 
 OnDecode(ev) ==
-  LET faulted == Len(ev.l) > 0
+  \* a batch decoded later than it was produced (lagged streams) carries its own input
+  LET theIn == IF Len(ev.in) > 0 THEN ev.in ELSE lastIn
+      faulted == Len(ev.l) > 0
       healthy == ev.flag = 1
-      dumped == Len(lastIn) > 0 \/ ev.b = 0
+      dumped == Len(theIn) > 0 \/ ev.b = 0
       tainted == ev.bid = 1        \* the batch continues a sub-stream the consumer has a hole in (outside C07's domain)
       SameAs(lo, ln) == ln = ev.n /\ (Len(ev.out) = ev.n /\ Len(lo) = ln => Equivalent(lo, ev.out))
       v == If(ev.oc = "panic" /\ (faulted \/ ~tainted), V("C07", "ConsumerPanic", ev))
            \cup If(ev.oc = "panic" /\ ~faulted /\ healthy, Vs(RTProps, "ConsumerPanicOnValidBatch", ev))
            \cup If(ev.oc = "error" /\ ~faulted /\ healthy, Vs(RTProps, "ValidBatchRejected", ev) \cup V("C07", "WellFormedBatchRejected", ev))
            \cup If(ev.oc = "ok" /\ ~faulted /\ healthy /\ ev.n # ev.b, Vs(RTProps, "ItemCountDiffers", ev))
-           \cup If(ev.oc = "ok" /\ ~faulted /\ healthy /\ ev.n = ev.b /\ Len(ev.out) = ev.n /\ Len(lastIn) = ev.b
-                     /\ ~Equivalent(lastIn, ev.out),
+           \cup If(ev.oc = "ok" /\ ~faulted /\ healthy /\ ev.n = ev.b /\ Len(ev.out) = ev.n /\ Len(theIn) = ev.b
+                     /\ ~Equivalent(theIn, ev.out),
                    Vs(RTProps, "NotEquivalent", ev))
            \cup If(ev.oc = "ok" /\ faulted /\ ev.a = 1 /\ ev.n < ev.b, V("C07", "SuccessWhileDiscardingMainRecord", ev))
            \cup If(ev.oc = "ok" /\ ~faulted /\ healthy /\
